@@ -3,6 +3,8 @@ import vlib
 import tlgen
 
 SUB = "c15"
+# the schema reader / value builder / writer the schema-built inputs are made with (shared with C13's end-to-end part)
+EXTRA_FILES = ("c13e2e.go", "c13groups_build.go")
 MODULES = ["Mtv.Props.C15"]
 THEOREMS = [
     "Mtv.TL.decoder_safe",
@@ -19,7 +21,15 @@ RULE = ("structure-aware mutation: a valid encoding of every registered struct c
         "container, msg_copy ids / boundary integers, single-bit flips; every enum id alone and inside rpc_result; "
         "vectors at the root and inside rpc_result under ten hint sets with counts up to 2^32-1; containers with "
         "every sign and magnitude of count and size and every truncation; gzip_packed valid / nested / corrupted / "
-        "garbage; hostile string headers; random bytes. Each input is decoded (unknown object or named type) by the "
+        "garbage; hostile string headers; random bytes. Inputs built from the SCHEMA (own reader of schemes/api_latest.tl and own "
+        "writer, c13e2e.go / c13groups_build.go - not the repository's encoder, which refuses or never makes some "
+        "well-formed inputs): for every registered constructor and function with a flags word, no conditional parameter "
+        "present / all present / each flag bit alone / random sets of bits, well-formed values after the flags word, and "
+        "the all-present encoding cut at word boundaries. Concurrent decoding (c15.par): batches covering every registered "
+        "struct constructor are decoded by 2-16 goroutines released together, each in its own order, each batch in a NEW "
+        "process (nothing decoded before: per-process state such as a cache is cold), and two batches again in the harness "
+        "process at the end; every member must have the result of the sequential model in every goroutine and the process "
+        "must survive (a Go fatal error is neither a value nor an error). Each input is decoded (unknown object or named type) by the "
         "real code under recover with allocation accounting and by the Lean model; outcome class and value compared. "
         "distinct = distinct operation lines")
 
@@ -28,10 +38,16 @@ def run(ctx):
     ctx.assumptions += [
         "compress/gzip is not modelled: the harness records what gzip makes of every packed payload occurring in an input and the model uses that table",
         "allocation is measured on the Go side (runtime.MemStats.TotalAlloc delta per call, bound 4 MiB + 2 KiB per input byte, gzip inputs excepted); the Lean side proves the size guards",
+        "schema-built inputs: the schema reader, value builder and writer of harness/cmd/vh/c13e2e.go + c13groups_build.go are trusted "
+        "(nested objects are the smallest constructor of their type); concurrent decoding: the schedule is the Go runtime's - "
+        "what is exercised is 2-16 goroutines released together over 48 inputs in different orders, in a process that has decoded nothing yet",
         "hints passed by callers are slice types (a non-slice hint panics in reflect: caller error, outside the property)",
     ]
-    return vlib.generic_check(ctx, SUB, MODULES, THEOREMS, RULE, gen_hook=tlgen.regen_registry)
+    return vlib.generic_check(ctx, SUB, MODULES, THEOREMS, RULE, gen_hook=tlgen.regen_registry,
+                              extra_files=EXTRA_FILES)
 
 
 def replay(ctx, path):
+    build = ctx.build_harness
+    ctx.build_harness = lambda extra_files=(): build(EXTRA_FILES)  # vlib.replay builds without extra files
     return vlib.replay(ctx, SUB, path)
